@@ -72,10 +72,10 @@ CHECKS = {
   note="The mutating/revealing classification is argued at the top of c19.go (RuleEnabled, GetParents unclassified). ListRules' documented swallowing of the search error (empty list) is accepted as a refusal.",
   design="2/C19"),
  "C20": dict(
-  engine="SEQ",
-  technique="explicit-state model checking: BFS over add/remove histories around the capacity boundary, and explicit-state search over breaker arrival patterns under a virtual clock with state-hash dedup",
-  text="Capacity: BFS to depth 5 (7 thorough) over AddFact (4 ids + generated) / AddRule / RemFact / EnableRule sequences for MaxFacts in {1,2,3} on both states: after every successful add StateSize <= MaxFacts, a refused add leaves private state + storage unchanged. Breaker: every arrival pattern up to length 8 (11 thorough) over {Do, clock advances of 1/4, 1/2, 1, 3/2 ticks, 1/2 and 1 interval, steady polling every 1/2 or 3/2 tick for one interval} for limit in {1,2,3} x interval in {20ms, 1s} (thorough adds 10ns, 30ns, 400ns), states deduplicated on (window counts, now-updated, recent admissions): every admission must be at most the limit-th within its sliding interval, and Do must admit when no admission happened in the last two intervals.",
-  note="Sequential clauses only in this revision: the concurrent clauses (two adds at the boundary, concurrent Do, Throttle pending bound) belong to the schedule engine. Recovery is read generously (two intervals).",
+  engine="SEQ+SCHED",
+  technique="explicit-state model checking (capacity BFS; breaker arrival patterns under a virtual clock with state-hash dedup) plus stateless schedule exploration of concurrent adds, concurrent breaker calls and Throttle submitters",
+  text="Sequential: BFS to depth 5 (7 thorough) over AddFact (4 ids + generated) / AddRule / RemFact / EnableRule for MaxFacts in {1,2,3}, both states (a successful add never ends above the maximum, a refused add leaves private state + storage unchanged); every breaker arrival pattern up to length 8 (11 thorough) over {Do, clock advances of 1/4..3/2 ticks, 1/2 and 1 interval, steady polling every 1/2 or 3/2 tick for one interval} for limit 1..3 x interval {20ms, 1s} (+10ns, 30ns, 400ns thorough): at most `limit` admissions per sliding interval, and recovery within two intervals even while polled. Concurrent (controlled scheduler, deviation bound 2 / 3): 2-3 concurrent adds at MaxFacts-1; 2-3 threads calling Do at one instant; 3-4 Throttle submitters with a closed breaker (pendingLimit 0..1) plus an observer reading Pending() at an arbitrary point: no function runs twice, never more than pendingLimit+1 submissions waiting, Pending() in range and 0 when idle.",
+  note="Recovery is read generously (two intervals). Two engines decide this property; bin/run.sh runs both and folds the evidence.",
   design="2/C20"),
  "C10": dict(
   engine="SEQ",
